@@ -24,6 +24,9 @@ def run(ctx, rep):
     rep.rule('R01.2', 'denotation chain lexeme -> Token -> Operator -> OpCode -> VM callee -> primitive equals the documented operator (15 cells)')
     rep.rule('R01.3', 'operand order: left operand = receiver on the generic path; fused opcodes only when that preserves the sides')
     rep.rule('R01.4', 'result plumbing: only Pop writes the result variable; Halt is the only Ok return')
+    rep.rule('R01.5', 'an expression statement always ends in Pop, the instruction that records the value of a program / block')
+    from rules import c11
+    c11.check_stmt_expr_pop(csa_run.analyse(ctx), rep, 'R01.5')
     check_pipeline(ctx, rep, 'R01.1')
     # ---- chain ---------------------------------------------------------------------------------
     lt = tables.lexer_table(ctx)['table']
